@@ -42,15 +42,21 @@ func resultsKVs(r *consensus.BlockResults) (k *kvs, hasNil bool) {
 	k = newKVs()
 	k.set("r.h", i64(r.Height))
 	k.setView("r.meta.raw", hx(r.Meta))
+	// a nil entry in TxsResults (CBOR null), detected independently of NewBlockResultsMeta
+	var raw api.BlockResultsMeta
+	if err := cbor.Unmarshal(r.Meta, &raw); err == nil {
+		for _, t := range raw.TxsResults {
+			hasNil = hasNil || t == nil
+		}
+	}
 	meta, err := api.NewBlockResultsMeta(r)
 	if err != nil {
 		k.set("md", "0")
-		return k, false
+		return k, hasNil
 	}
-	for _, t := range meta.TxsResults {
-		if t == nil {
-			return k, true
-		}
+	if hasNil {
+		// NewBlockResultsMeta let a nil entry through (the unrepaired code): no semantic view
+		return k, true
 	}
 	k.set("md", "1")
 	var txs []string
@@ -436,7 +442,9 @@ func paramsKVs(p *consensus.Parameters, lb *cmttypes.LightBlock, state *consensu
 	if err := pb.Unmarshal(p.Meta); err != nil {
 		k.set("md", "0")
 	} else if pb.Block == nil || pb.Evidence == nil || pb.Validator == nil || pb.Version == nil {
-		return k, true
+		// "malformed parameters: missing section" (the unrepaired code dereferenced the nil section)
+		k.set("md", "0")
+		missing = true
 	} else {
 		cp := cmttypes.ConsensusParamsFromProto(pb)
 		if err := cp.ValidateBasic(); err != nil {
@@ -463,7 +471,7 @@ func paramsKVs(p *consensus.Parameters, lb *cmttypes.LightBlock, state *consensu
 	} else {
 		k.set("st", hx(cbor.Marshal(state)))
 	}
-	return k, false
+	return k, missing
 }
 
 func paramsVerdict(err error, validateErr string) string {
